@@ -389,6 +389,13 @@ func (c *Collection) WriteCas(key string, exp Exp, cas CAS, val any, opt sgbucke
 			return nil, err
 		}
 		casOut = newCas
+		if (opt&sgbucket.Append) != 0 && raw != nil {
+			// the event describes the document as stored, not just the appended fragment
+			row := txn.QueryRow(`SELECT value FROM documents WHERE collection=?1 AND key=?2`, c.id, key)
+			if err = scan(row, &raw); err != nil {
+				return nil, err
+			}
+		}
 		return &event{
 			key:        key,
 			value:      raw,
